@@ -14,7 +14,7 @@
    The Gaussian-fit method (scipy curve_fit) is outside the model: swept. *)
 From Coq Require Import List Arith Bool ZArith Reals.
 From PA Require Import base.Arr model.Origin proofs.OriginSums proofs.OriginProofs proofs.OriginConv
-  proofs.OriginImage proofs.OriginTop proofs.OriginShift.
+  proofs.OriginImage proofs.OriginTop proofs.OriginShift proofs.OriginRound.
 Import ListNotations.
 Local Open Scope R_scope.
 
@@ -129,6 +129,50 @@ Theorem C13_axes_independent :
   snd (find_originR meth IM ax true) = snd (find_originR meth IM true true).
 Proof. exact axes_independent. Qed.
 Print Assumptions C13_axes_independent.
+
+(* Option round_output (find_origin_optR meth IM ax0 ax1 round_output; Rround is
+   Python's round(): nearest integer, ties to even): the result is within 1/2
+   of the centre of mass and integral; off (default) or with another method it
+   changes nothing; an image symmetric about a pixel centre gives exactly that
+   pixel; a coordinate that is not requested stays the image centre. *)
+Theorem C13_round_nearest :
+  (forall x, Rabs (Rround x - x) <= 1 / 2) /\ (forall x, exists k : Z, Rround x = IZR k) /\
+  (forall k, Rround (IZR k) = IZR k).
+Proof. exact (conj Rround_near (conj Rround_is_int Rround_int)). Qed.
+Print Assumptions C13_round_nearest.
+
+Theorem C13_round_output_com :
+  forall (IM : list (list R)) (ax0 ax1 : bool),
+  let o := find_originR Com IM ax0 ax1 in
+  let q := find_origin_optR Com IM ax0 ax1 true in
+  Rabs (fst q - fst o) <= 1 / 2 /\ Rabs (snd q - snd o) <= 1 / 2 /\
+  (exists k : Z, fst q = IZR k) /\ (exists k : Z, snd q = IZR k).
+Proof. exact com_round_near. Qed.
+Print Assumptions C13_round_output_com.
+
+Theorem C13_round_output_off_or_ignored :
+  forall (meth : method) (IM : list (list R)) (ax0 ax1 : bool),
+  find_origin_optR meth IM ax0 ax1 false = find_originR meth IM ax0 ax1 /\
+  (forall r, meth <> Com -> find_origin_optR meth IM ax0 ax1 r = find_originR meth IM ax0 ax1).
+Proof.
+  exact (fun meth IM ax0 ax1 => conj (round_output_off meth IM ax0 ax1)
+                                     (fun r H => round_output_ignored meth IM ax0 ax1 r H)).
+Qed.
+Print Assumptions C13_round_output_off_or_ignored.
+
+Theorem C13_round_output_symmetric :
+  forall (n m : nat) (IM : list (list R)) (k0 k1 : Z),
+  wf n m IM -> (0 < n)%nat -> psym IM (2 * k0) (2 * k1) -> total IM <> 0 ->
+  find_origin_optR Com IM true true true = (IZR k0, IZR k1).
+Proof. exact com_round_symmetric. Qed.
+Print Assumptions C13_round_output_symmetric.
+
+Theorem C13_round_output_default_centre :
+  forall (IM : list (list R)) (ax0 ax1 : bool),
+  (ax0 = false -> fst (find_origin_optR Com IM ax0 ax1 true) = INR (nrows IM / 2)) /\
+  (ax1 = false -> snd (find_origin_optR Com IM ax0 ax1 true) = INR (ncols IM / 2)).
+Proof. exact com_round_default_centre. Qed.
+Print Assumptions C13_round_output_default_centre.
 
 (* one-dimensional forms (profiles), used above *)
 Theorem C13_profile_1d :
